@@ -107,6 +107,9 @@ inductive Stmt where
   | scoped (dst : Nat) (body : Stmt)     -- an inlined call `dst = self.helper(…)`: `return v` inside `body` ends `body` only
   | handler (cls : Nat) (bind : Option Nat) (body rest : Stmt)   -- only inside `try_ _ handlers _ _`
   | noHandler
+  | loop (fuel : Nat) (body : Stmt)      -- `while True: body` (at most `fuel` iterations, then stuck: termination is the caller's lemma)
+  | cont                                 -- `continue`
+  | brk                                  -- `break`
   | unsupported                         -- the translator met a construct outside the subset *inside an `if` arm* …
 
 /-! ### builtin calls -/
@@ -127,6 +130,9 @@ abbrev bConcat : Nat := 13      -- [*a, *b]
 abbrev bDictOfTypes : Nat := 14 -- {type(e): e for e in xs}   (external `typeOf` supplies type(e))
 abbrev bType : Nat := 15        -- type(v) for exception instances
 abbrev bGet : Nat := 16         -- d.get(k) / d.get(k, default)
+abbrev bAnyInst : Nat := 17     -- any(isinstance(v, c) for c in classes)
+abbrev bAdd : Nat := 18         -- a + b (ints)
+abbrev bIsNumber : Nat := 19    -- class pattern `int() | float()`: numbers are `.int` (and `bool`, a subclass of `int`)
 
 /-- interpreter state: locals, fields of `self`, the external world, the exception being handled (for bare `raise`),
 and a counter for fresh identities -/
@@ -185,6 +191,11 @@ def builtin {W : Type} (f : Nat) (args : List Val) (s : St W) : R W :=
   | 15, [.exc c _] => .ok (.cls c) s
   | 16, [.dict kv, k] => .ok ((assocGet kv k).getD .none) s
   | 16, [.dict kv, k, d] => .ok ((assocGet kv k).getD d) s
+  | 17, [.exc c _, .list cs] => .ok (.bool (cs.any fun | .cls d => isSub c d | _ => false)) s
+  | 18, [.int a, .int b] => .ok (.int (a + b)) s
+  | 19, [.int _] => .ok (.bool true) s
+  | 19, [.bool _] => .ok (.bool true) s
+  | 19, [_] => .ok (.bool false) s
   | _, _ => .stuck
 
 def cmpInt (op : Nat) (a b : Int) : Option Bool :=
@@ -253,6 +264,18 @@ inductive Out where
   | ret (v : Val)
   | exc (e : Val)
   | stuck
+  | cont                                 -- `continue` on its way to the enclosing loop
+  | brk                                  -- `break` on its way to the enclosing loop
+
+/-- `while True:` – run `step` until it ends with something other than falling through / `continue` -/
+def iter {W : Type} (step : St W → Out × St W) : Nat → St W → Out × St W
+  | 0, s => (.stuck, s)
+  | n + 1, s =>
+    match step s with
+    | (.normal, s1) => iter step n s1
+    | (.cont, s1) => iter step n s1
+    | (.brk, s1) => (.normal, s1)
+    | r => r
 
 def excClass : Val → Option Nat
   | .exc c _ => some c
@@ -265,6 +288,9 @@ def exec {W : Type} (ext : World W) : Stmt → St W → Out × St W
   | .unsupported, s => (.stuck, s)
   | .noHandler, s => (.stuck, s)
   | .handler _ _ _ _, s => (.stuck, s)
+  | .cont, s => (.cont, s)
+  | .brk, s => (.brk, s)
+  | .loop fuel body, s => iter (exec ext body) fuel s
   | .seq a b, s =>
     match exec ext a s with
     | (.normal, s1) => exec ext b s1
